@@ -96,12 +96,13 @@ def oidcAuthenticate (fixed : Bool) (td : String) (expected : List String) : Oid
   | .badClaims => .err
   | .claims sub aud => oidcClaims fixed td expected sub aud
 
-/-- `Authenticate` entry: token extraction first; `verdict` is what the verifier makes of the token. -/
+/-- `Authenticate` entry: token extraction first; `verify` is the OIDC verifier (signature, issuer,
+    expiry, claims) as a function of the token that was extracted - and of nothing else. -/
 def oidcEntry (fixed : Bool) (td : String) (expected : List String) (t : Transport) (authVals : List String)
-    (verdict : OidcTok) : AuthRes :=
+    (verify : String → OidcTok) : AuthRes :=
   match extractToken t authVals with
   | none => .err
-  | some _ => oidcAuthenticate fixed td expected verdict
+  | some tok => oidcAuthenticate fixed td expected (verify tok)
 
 /-- The code as it is in /repo now. -/
 def repoOidcFixed : Bool := true
@@ -177,9 +178,10 @@ structure ReviewCall where
   deriving DecidableEq, Repr
 
 /-- `KubeJWTAuthenticator.Authenticate`: the result and the TokenReview that was submitted (which
-    cluster, which token, which audiences = `security.TokenAudiences`). -/
+    cluster, which token, which audiences = `security.TokenAudiences`).  `api` is the API servers'
+    answer as a function of exactly that submission. -/
 def kubeAuthenticate (t : Transport) (td : String) (cfg : KubeCfg) (clusterHdr : Option (List String))
-    (authVals : List String) (tokenAudiences : List String) (r : Review) : AuthRes × Option ReviewCall :=
+    (authVals : List String) (tokenAudiences : List String) (api : ReviewCall → Review) : AuthRes × Option ReviewCall :=
   match extractToken t authVals with
   | none => (.err, none)
   | some tok =>
@@ -187,7 +189,7 @@ def kubeAuthenticate (t : Transport) (td : String) (cfg : KubeCfg) (clusterHdr :
     | none => (.err, none)
     | some cl =>
       let call : ReviewCall := { client := cl, token := tok, audiences := tokenAudiences }
-      match tokenReviewResult r with
+      match tokenReviewResult (api call) with
       | none => (.err, some call)
       | some k =>
         if k.podSA = "" then (.err, some call)
@@ -319,16 +321,17 @@ structure XfccElem where
 def xfccIDs (es : List XfccElem) : List String :=
   es.flatMap (fun e => e.uris ++ e.dns ++ (match e.subject with | some cn => [cn] | none => []))
 
-/-- `XfccAuthenticator.Authenticate`; `parsed` is `xfccparser.ParseXFCCHeader(headers[0])`. -/
+/-- `XfccAuthenticator.Authenticate`; `parse` is the third-party `xfccparser.ParseXFCCHeader`, applied
+    to the FIRST header value. -/
 def xfccAuthenticate (cidrs : List String) (remoteAddr : String) (headers : List String)
-    (parsed : Option (List XfccElem)) : AuthRes :=
+    (parse : String → Option (List XfccElem)) : AuthRes :=
   if remoteAddr.isEmpty ∨ headers.isEmpty then .err
   else
     match isTrustedAddress remoteAddr cidrs with
     | .crash => .crash
     | .no => .err
     | .yes =>
-      match parsed with
+      match parse (headers.headD "") with
       | none => .err
       | some [] => .err
       | some (e :: es) => .ok { identities := xfccIDs (e :: es) }
